@@ -727,7 +727,7 @@ def gridSetBase (c : TClass) (childNonrigid : Nat → Bool) (obj grid : Nat) (sa
 
 /-- `grid(g)` — base.py @125-129: `shallow_copy(self).grid_(grid)` with the overrides
     DenseVectorFieldTransform.grid_ nonrigid.py @119-143 (params is a Tensor: resample, `super().grid_`, `data_(new)`),
-    StationaryVelocityFieldTransform.grid_ @247-251 (`self.exp.align_corners = …`: writes the shared child),
+    StationaryVelocityFieldTransform.grid_ @247-256 (a *copy* of the `exp` child gets the new flag when it differs),
     BSplineTransform.grid_ bspline.py @86-142 (`self._grid = grid`; `data_(subdivided)` when `subdivide`). -/
 def gridProg (c : TClass) (childNonrigid : Nat → Bool) (sameGrid subdivide valid : Bool) (ac : Nat) : Prog := fun st =>
   let self := st.regs 0
@@ -744,7 +744,14 @@ def gridProg (c : TClass) (childNonrigid : Nat → Bool) (sameGrid subdivide val
      (if isTensor then
         gridSetBase c childNonrigid 10 1 sameGrid ++ newTensor 33 tTensor 1 ++ dataSet st c.nonrigid self 10 33
       else gridSetBase c childNonrigid 10 1 sameGrid) ++
-     (if c.svf then [getattr 27 10 kExp, p (.storeImm 27 kAlignCorners ac)] else [])
+     -- StationaryVelocityFieldTransform.grid_ (repair F-15e): `if self.exp.align_corners != grid.align_corners():
+     --   exp = shallow_copy(self.exp); exp.align_corners = …; self.exp = exp` — the child module shared with the
+     -- original is never written: a copy of it (plain `copy.copy` of an nn.Module: new object, same containers) gets
+     -- the flag and is rebound in the receiver copy's own `_modules`.  The flag currently stored in the child is read
+     -- from the heap (the copy still refers to the original's `exp` at this point).
+     (if c.svf ∧ lookupEntry (st.heap.node (attrNode st self kExp)).entries kAlignCorners ≠ some (.imm ac) then
+        [getattr 27 10 kExp, p (.copyNode 28 27), p (.storeImm 28 kAlignCorners ac), setattr 10 kExp 28]
+      else [])
    else gridSetBase c childNonrigid 10 1 sameGrid)
 
 /-- `matrix(m)` — base.py @471-477: `shallow_copy(self).matrix_(arg)`; `matrix_` of HomogeneousTransform
@@ -825,5 +832,48 @@ def canonRunDataOld (isParam : Bool) : OState :=
 def canonPure (isParam svf : Bool) (a : TAcc) : Bool :=
   (List.range 16).all (fun n => (canonRun isParam svf a).heap.node n == (canonTransformHeap isParam svf).node n)
 
+
+
+/-- canonical composite (SequentialTransform / MultiLevelTransform) with one non-rigid child whose parameters are
+    buffer-held and whose displacement `u` is buffered.  Node 1 = the composite, 4 = its `_modules`, 16 = the
+    `_transforms` ModuleDict, 17 = the ModuleDict's `_modules`, 18 = the child (20 = its `_buffers`, 22 = its
+    non-persistent set), 9/10 params, 24/25 `u`, 11/12 a tensor, 13 an args tuple, 14 another grid. -/
+def canonCompositeHeap : OHeap :=
+  { node := fun n =>
+      match n with
+      | 1 => ⟨tModule, 0, [(kParameters, .ref 2), (kBuffers, .ref 3), (kModules, .ref 4), (kNonPersistent, .ref 5),
+                            (kHooks, .ref 6), (kGrid, .ref 7), (kArgs, .imm 0), (kKwargs, .ref 8)]⟩
+      | 2 => ⟨tDict, 0, []⟩ | 3 => ⟨tDict, 0, []⟩
+      | 4 => ⟨tDict, 0, [(kTransforms, .ref 16)]⟩
+      | 5 => ⟨tSet, 0, []⟩ | 6 => ⟨tDict, 0, []⟩ | 7 => ⟨tGrid, 0, []⟩ | 8 => ⟨tDict, 0, []⟩
+      | 9 => ⟨tTensor, 0, [(kData, .ref 10)]⟩ | 10 => ⟨tOther, 10, []⟩
+      | 11 => ⟨tTensor, 0, [(kData, .ref 12)]⟩ | 12 => ⟨tOther, 12, []⟩
+      | 13 => ⟨tTuple, 0, [(100, .ref 11)]⟩
+      | 14 => ⟨tGrid, 1, []⟩
+      | 16 => ⟨tModule, 0, [(kModules, .ref 17)]⟩
+      | 17 => ⟨tDict, 0, [(100, .ref 18)]⟩
+      | 18 => ⟨tModule, 0, [(kParameters, .ref 19), (kBuffers, .ref 20), (kModules, .ref 21), (kNonPersistent, .ref 22),
+                             (kGrid, .ref 7), (kArgs, .imm 0), (kKwargs, .ref 23)]⟩
+      | 19 => ⟨tDict, 0, []⟩
+      | 20 => ⟨tDict, 0, [(kParams, .ref 9), (kU, .ref 24)]⟩
+      | 21 => ⟨tDict, 0, []⟩
+      | 22 => ⟨tSet, 0, [(kU, .imm 1)]⟩
+      | 23 => ⟨tDict, 0, []⟩
+      | 24 => ⟨tTensor, 0, [(kData, .ref 25)]⟩ | 25 => ⟨tOther, 25, []⟩
+      | _ => ⟨tNone, 0, []⟩,
+    next := 26 }
+
+def compositeClass : TClass := ⟨false, 1, true, false, false, false, true⟩
+
+/-- `condition(x)` (grid = false) / `grid(g)` with another grid (grid = true) on the canonical composite -/
+def canonCompositeRun (grid : Bool) : OState :=
+  let st := initState canonCompositeHeap (fun r => if r = 0 then 1 else if r = 1 then (if grid then 14 else 13) else 0)
+  runProg st (if grid then gridProg compositeClass (fun _ => true) false false true 2
+              else conditionProg compositeClass (fun _ => true))
+
+def canonCompositeChanged (grid : Bool) : List Nat :=
+  (List.range 26).filter (fun n => (canonCompositeRun grid).heap.node n != canonCompositeHeap.node n)
+
+def canonCompositePure (grid : Bool) : Bool := (canonCompositeChanged grid).isEmpty
 
 end Deepali
